@@ -19,6 +19,12 @@ CHECKS = {
  "C05": dict(cat="exploration", tech="environment/input-deviation enumeration (1 corrupted field, every byte x boundary values, truncations, hostile records and SQL, journal bytes) with every public operation run in a watched worker subprocess",
    text="4 small base images (two-level table/index trees, multi-page overflow chains, WITHOUT ROWID, multi-page sqlite_master) x every structural field x a boundary alphabet (own page, every page, page count+1, 0/1/+-1/max, 9-byte and negative varints, every serial type), every byte x 8 values (x256 thorough), every truncation length multiple of 64 and around page boundaries, ~100 hostile record payloads as table and index cells, ~60 hostile CREATE texts in sqlite_master, pairs of related fields within a page (thorough), journal header fields x lengths on real files; every mutant runs open, schema calls, Info, all scans/searches/lookups, the six high level selects with several keys and the driver. Oracle: no panic (also in the driver goroutine), live heap < 3 GB, < 20 s CPU per operation, worker survives.",
    note="Exhaustive for one deviation within the alphabets; not all byte strings. CPU-time (not wall) watchdog with >10^6x slack; no read-count bound.", ref="5/C05"),
+ "C06": dict(cat="model_checking", tech="stateless model checking: preemption-bounded DFS over all interleavings of the real operation (parked at every pager event and row callback) with a real SQLite writer process, a same-process handle and an other-process handle; invariants on the kernel lock table",
+   text="The operation under test runs on the real file pager (real fcntl locks, real mmap) under a tracing pager that parks it before/after every lock and unlock, before every page read and in every row callback. Exit paths enumerated sequentially: normal, stop at every row, callback panic at every row, no such table/column/index, fault at every page read. Interleavings: H1 x {SQLite writer in another process (BEGIN IMMEDIATE, INSERT, COMMIT, busy_timeout 0), second handle in the same process (Open, RLock, RUnlock, Close or a whole Select), handle in another process}, all schedules with <=2 context switches (3 thorough), triples H1 x H2 x W and H1 x H3 x W with <=2. At every step /proc/locks is read: inside the call the process holds READ on the whole shared range; every page read lies inside the locked interval; a COMMIT attempted inside returns BUSY; after return nothing is held on the pending byte or shared range and the writer commits. database/sql result sets left open after k rows hold the lock, Close releases it.",
+   note="Unix pager only. /proc/locks snapshots are taken with single read() calls (atomic within the kernel's 4 KB chunk; worker count limited so the list fits). Known finding F14a-d (same-process second handle drops the lock) is reported as KNOWN-FINDING.", ref="5/C06"),
+ "C07": dict(cat="model_checking", tech="explicit enumeration of the product (writer lock state reached by a real SQLite connection after every statement) x (every read operation) x (fresh / long-lived handle)",
+   text="A real SQLite writer in another process is parked after every statement of 6 transaction scripts (small commit, rollback, spilling bulk insert with cache_size=1, spill+rollback, COMMIT blocked by a third reader = PENDING, locking_mode=EXCLUSIVE), journal mode DELETE (+TRUNCATE, PERSIST thorough). Its actual lock level is read from /proc/locks (UNLOCKED, SHARED, RESERVED, PENDING, EXCLUSIVE all reached). In every state all ~25 read operations run on a fresh and on a long-lived handle. Oracle: PENDING/EXCLUSIVE => error and zero rows; otherwise success and exactly the last committed content (cross-checked with a separate SQLite reader's dump).",
+   note="Sequential product, no concurrency inside a step. Peers are separate processes (POSIX locks are per process).", ref="5/C07"),
  "C11": dict(cat="model_checking", tech="exhaustive enumeration of all pairs/triples of a value grid x collations x directions against real SQLite's ranking",
    text="All ordered pairs of a 109-value grid (every storage class, int64/float64 boundaries, case/whitespace/NUL/non-ASCII text, blobs) x 3 collations x ASC/DESC through db.Search both ways and db.Equals, judged by SQLite's dense_rank() and index order; all triples for transitivity; multi-column keys of every prefix length x 8 DESC masks.",
    note="Trusted: SQLite 3.40.1 ranking. NaN and invalid UTF-8 are outside the grid.", ref="5/C11"),
@@ -37,6 +43,9 @@ CHECKS = {
  "C16": dict(cat="model_checking", tech="exhaustive enumeration of short strings / token sequences / element tuples against totality, determinism and locality oracles",
    text="Every string of length <=5 (6 thorough) over a 20-symbol alphabet drawn from the tokenizer's branches (3.4M / 67M strings), every token sequence of length <=4 over a 63-token alphabet (16M; length 5 over 30 tokens thorough), every one-token delete/replace/insert of SQLite-valid statements; locality: every ordered pair and triple (quadruple thorough) of 31 column definitions, 12 indexed columns, 10 table constraints in one statement, each element compared with the same text parsed alone, judged only when real SQLite accepts the statement; determinism: every statement re-parsed after every other statement.",
    note="Hang verdict by a 120 s wall watchdog on a microsecond operation. Strings longer than the bounds only through the structured families.", ref="5/C16"),
+ "C18": dict(cat="model_checking", tech="exhaustive enumeration of (value, destination, position) triples against a reference model + BFS over scan/mutate/close/overwrite/re-read histories on a real file",
+   text="Every value of a 95-value grid x every supported destination type x column positions incl. past the row width, unsupported and nil destinations, argument counts 0..width+2, ScanString helpers: no panic, result and error-ness equal a reference model of the documented conversions, row unchanged. Every history of depth <=4 (5 thorough) over {scan blob row into []byte, scan into string, mutate every scanned slice, re-read same handle, re-read fresh handle, close, overwrite file, verify scanned values} on a real file with inline and overflowed blobs.",
+   note="The reference model re-states the documented rules with the same Go conversions (float->int of out-of-range values is whatever Go does on this platform).", ref="5/C18"),
  "C17": dict(cat="model_checking", tech="environment-answer enumeration: the callback says stop at every row k of every scan on every shape image",
    text="Every table and index shape image x every stoppable scan (SelectDone, driver result set closed after k rows, Table.Scan, Index.Scan, ScanMin/ScanEq/ScanRange) x every k=1..result size: exactly the first k rows, exactly k callbacks, nil error, lock/unlock balanced.",
    note="Lock release is observed on the in-memory pager here; on the real file pager and /proc/locks in C06.", ref="5/C17"),
